@@ -76,6 +76,9 @@ def _replay_chunk(keys):
     template = bool(getattr(cfg, "assignments", None))
     if template:
         from .template import check_build
+    relations = getattr(cfg, "relations", False)
+    if relations:
+        from .relations import check_relations
     for key in keys:
         outs, rets, st = expect[key][:3]
         dev_index = dev_of(key)
@@ -110,6 +113,9 @@ def _replay_chunk(keys):
                 why = P.diff(proj, e[2], cfg.ptol, cfg.phase_mod, "s")
                 if not why and render and e[4] is not None:
                     for pred, detail in check_render(run.seq, e[4], proj):
+                        hookv.append((pred, pre, detail))
+                if not why and relations:
+                    for pred, detail in check_relations(cfg, run, ctx, proj):
                         hookv.append((pred, pre, detail))
                 if not why and template and e[5] is not None:
                     for pred, detail in check_build(cfg, run, ctx, pre, e, proj):
